@@ -449,9 +449,15 @@ def judge_sequence(ctx, res, case):
             os.unlink(fa)
     if not os.path.exists(fa):
         with open(fa, "w") as fh:
+            width = 60
+            if case.get("stream") == "reused_path":
+                # the regenerated file is laid out differently: another line width, now and then another record first
+                width = [60, 50, 70, 35][REUSED[0] % 4]
+                if REUSED[0] % 3 == 1:
+                    fh.write(">other\n" + "ACGT" * (7 + REUSED[0]) + "\n")
             fh.write(">%s\n" % case["seqid"])
-            for i in range(0, len(ref), 60):
-                fh.write(ref[i:i + 60] + "\n")
+            for i in range(0, len(ref), width):
+                fh.write(ref[i:i + width] + "\n")
     if case.get("stream") == "reused_path":
         import time
         t = time.time() + 10 * REUSED[0]              # strictly newer than any index written so far
